@@ -102,6 +102,9 @@ impl Actor for Sc {
                 o.remove_random("c");
                 o.set_timer(4, dur());
             }
+            // state left borrowed and exactly one SetTimer, but of a DIFFERENT timer: a real transition (the fired
+            // timer is cancelled, timer 1 armed), not a renewal
+            4 => o.set_timer(1, dur()),
             _ => {
                 let c = s.0;
                 *s.to_mut() = (c.wrapping_add(1), 31);
@@ -515,6 +518,38 @@ pub fn run(ctx: &mut Ctx) {
                 let label = format!("probe:{}:lossy={}:k={}", kind, lossy, max_crashes);
                 let m = model(vec![P::<u8>::new(0), P::<u8>::new(1)], kind, &[(0, 1, 21), (1, 0, 22), (1, 0, 23), (0, 5, 24)], lossy, max_crashes, 0);
                 explore(ctx, &mut cov, &label, &m, 3);
+            }
+        }
+    }
+    // `is_no_op` / `is_no_op_with_timer` against their definitions: all outputs of up to 3 commands over a
+    // small command alphabet, both Cow shapes, every fired timer
+    {
+        let alpha = |k: u8, o: &mut Out<Sc>| match k {
+            0 => o.set_timer(1, dur()),
+            1 => o.set_timer(2, dur()),
+            2 => o.cancel_timer(1),
+            3 => o.send(Id::from(1), 7),
+            _ => o.choose_random("k", vec![1]),
+        };
+        let st0 = (0u8, 0u8);
+        for owned in [false, true] {
+            for n in 0..=3u32 {
+                for code in 0..5u32.pow(n) {
+                    for timer in [1u8, 2, 3] {
+                        let ks: Vec<u8> = (0..n).map(|j| ((code / 5u32.pow(j)) % 5) as u8).collect();
+                        let case = format!("noop-def:owned={} cmds={:?} timer={}", owned, ks, timer);
+                        if !ctx.want(&case) { continue; }
+                        let mut o: Out<Sc> = Out::new();
+                        for k in &ks { alpha(*k, &mut o); }
+                        let state: Cow<(u8, u8)> = if owned { Cow::Owned(st0) } else { Cow::Borrowed(&st0) };
+                        let want0 = !owned && ks.is_empty();
+                        let want1 = !owned && ks.len() == 1 && ((ks[0] == 0 && timer == 1) || (ks[0] == 1 && timer == 2));
+                        let got0 = is_no_op(&state, &o);
+                        let got1 = is_no_op_with_timer(&state, &o, &timer);
+                        ctx.check(&case, "am-noop-definition", &["AM.is_no_op.ensures.def", "AM.is_no_op_with_timer.ensures.def"], got0 == want0 && got1 == want1,
+                            format!("is_no_op={} is_no_op_with_timer={}", got0, got1), format!("is_no_op={} is_no_op_with_timer={}", want0, want1));
+                    }
+                }
             }
         }
     }
